@@ -55,37 +55,57 @@ Proof.
   f_equal. f_equal. lia.
 Qed.
 
-Lemma accumulate_nc_ok ut base v d : sgn ut = false -> 32 <= bits ut ->
-  exists v', accumulate_m ut base v d = Ok v'.
+(* the widths of the C++ integer types on the modelled platform (below int: promoted to int) *)
+Definition cxx_width (w : Z) : Prop := 8 <= w <= 16 \/ 32 <= w.
+
+(* unchecked accumulation: unsigned wrap-around at >= 32 bits; below int the product is computed
+   in int and value < 2^16, base <= 36 keeps it far from INT_MAX *)
+Lemma accumulate_nc_ok ut base v d : sgn ut = false -> cxx_width (bits ut) -> 2 <= base <= 36 ->
+  0 <= v < 2 ^ bits ut -> 0 <= d < base ->
+  exists v', accumulate_m ut base v d = Ok v' /\ 0 <= v' < 2 ^ bits ut.
 Proof.
-  intros Hs Hb. unfold accumulate_m, parith, promote.
-  replace (bits ut <? 32) with false by lia. rewrite Hs. cbn [rbind]. eexists. reflexivity.
+  intros Hs Hw Hb Hv Hd. unfold accumulate_m, parith, promote.
+  assert (Hrange : forall x, 0 <= cast ut x < 2 ^ bits ut).
+  { intros x. unfold cast, wrap_ty, wrapu. rewrite Hs. apply Z.mod_pos_bound.
+    apply pow2_pos. destruct Hw; lia. }
+  destruct Hw as [Hw|Hw].
+  - replace (bits ut <? 32) with true by lia. cbn [sgn i32].
+    pose proof (pow2_mono (bits ut) 16 ltac:(lia)) as Hm. change (2 ^ 16) with 65536 in Hm.
+    assert (H1 : in_ty i32 (v * base) = true).
+    { apply in_ty_iff. change (imin i32) with (-2147483648). change (imax i32) with 2147483647. nia. }
+    rewrite H1. cbn [rbind]. rewrite Hs.
+    assert (H2 : in_ty i32 (v * base + d) = true).
+    { apply in_ty_iff. change (imin i32) with (-2147483648). change (imax i32) with 2147483647. nia. }
+    rewrite H2. cbn [rbind]. eexists. split; [reflexivity|apply Hrange].
+  - replace (bits ut <? 32) with false by lia. rewrite Hs. cbn [rbind]. eexists. split; [reflexivity|apply Hrange].
 Qed.
 
-Lemma ti_loop_nc_end ut base : sgn ut = false -> 32 <= bits ut -> 2 <= base <= 36 ->
-  forall s pos v, exists v',
+Lemma ti_loop_nc_end ut base : sgn ut = false -> cxx_width (bits ut) -> 2 <= base <= 36 ->
+  forall s pos v, 0 <= v < 2 ^ bits ut -> exists v',
     ti_loop_nc ut base s pos v = Ok ((pos + length (take_digits base s))%nat, v').
 Proof.
-  intros Hs Hbits Hb. pose proof (imin_imax ut ltac:(lia)) as Hi.
-  induction s as [|c r IH]; intros pos v; cbn [ti_loop_nc take_digits length].
+  intros Hs Hw Hb. assert (Hbits : 8 <= bits ut) by (destruct Hw; lia).
+  pose proof (imin_imax ut Hbits) as Hi.
+  induction s as [|c r IH]; intros pos v Hv; cbn [ti_loop_nc take_digits length].
   - exists v. f_equal. f_equal. lia.
   - destruct (char_digit c) as [d|] eqn:Ec.
     + pose proof (char_digit_range c d Ec) as Hd.
-      rewrite (parse_digit_valid ut c d ltac:(lia) Ec).
+      rewrite (parse_digit_valid ut c d Hbits Ec).
       destruct (d <? base) eqn:Elt.
       * replace (d >=? base) with false by lia.
-        destruct (accumulate_nc_ok ut base v d Hs Hbits) as [v' Hv]. rewrite Hv. cbn [rbind].
-        destruct (IH (S pos) v') as [v'' Hv'']. exists v''. rewrite Hv''. cbn [length]. f_equal. f_equal. lia.
+        destruct (accumulate_nc_ok ut base v d Hs Hw Hb Hv ltac:(lia)) as [v' [Hv' Hr]]. rewrite Hv'. cbn [rbind].
+        destruct (IH (S pos) v' Hr) as [v'' Hv'']. exists v''. rewrite Hv''. cbn [length]. f_equal. f_equal. lia.
       * replace (d >=? base) with true by lia. exists v. cbn [length]. f_equal. f_equal. lia.
     + rewrite (parse_digit_invalid ut c Ec). replace (imax ut >=? base) with true by lia.
       exists v. cbn [length]. f_equal. f_equal. lia.
 Qed.
 
-Lemma to_integer_nc_end ut base s d ds : sgn ut = false -> 32 <= bits ut -> 2 <= base <= 36 ->
+Lemma to_integer_nc_end ut base s d ds : sgn ut = false -> cxx_width (bits ut) -> 2 <= base <= 36 ->
   take_digits base s = d :: ds ->
   exists v, to_integer_nc_m ut s base = Ok (length (d :: ds), TiNone, v).
 Proof.
-  intros Hs Hbits Hb Hd. destruct s as [|c r]; [discriminate|].
+  intros Hs Hw Hb Hd. assert (Hbits : 8 <= bits ut) by (destruct Hw; lia).
+  destruct s as [|c r]; [discriminate|].
   cbn [take_digits] in Hd. unfold to_integer_nc_m.
   destruct (char_digit c) as [d0|] eqn:Ec; [|discriminate].
   pose proof (char_digit_range c d0 Ec) as Hr.
@@ -95,7 +115,9 @@ Proof.
   rewrite (abs_ok ut d ltac:(lia) ltac:(lia)). cbn [rbind].
   rewrite Z.abs_eq by lia. rewrite (cast_id ut d ltac:(lia)) by (apply in_ty_small; lia).
   replace (d >=? base) with false by lia.
-  destruct (ti_loop_nc_end ut base Hs Hbits Hb r 1%nat d) as [v Hv]. rewrite Hv. cbn [rbind fst snd length].
+  assert (Hd2 : 0 <= d < 2 ^ bits ut).
+  { pose proof (pow2_mono 8 (bits ut) ltac:(lia)) as Hm. change (2 ^ 8) with 256 in Hm. lia. }
+  destruct (ti_loop_nc_end ut base Hs Hw Hb r 1%nat d Hd2) as [v Hv]. rewrite Hv. cbn [rbind fst snd length].
   exists v. reflexivity.
 Qed.
 
@@ -119,7 +141,7 @@ Proof.
   pose proof (pow2_pos w ltac:(lia)). lia.
 Qed.
 
-Lemma convert_spec t neg b' s3 p3 : 32 <= bits t -> 2 <= b' <= 36 ->
+Lemma convert_spec t neg b' s3 p3 : cxx_width (bits t) -> 2 <= b' <= 36 ->
   strto_convert_m t neg b' s3 p3 =
     Ok (match take_digits b' s3 with
         | [] => (0%nat, TiInvalid, 0)
@@ -127,9 +149,11 @@ Lemma convert_spec t neg b' s3 p3 : 32 <= bits t -> 2 <= b' <= 36 ->
                 ((p3 + length ds)%nat, if strto_in_range t neg m then TiNone else TiOverflow, strto_value t neg m)
         end).
 Proof.
-  intros Hbits Hb. unfold strto_convert_m. cbv zeta.
+  intros Hw Hb. assert (Hbits : 8 <= bits t) by (destruct Hw; lia).
+  unfold strto_convert_m. cbv zeta.
   set (ut := unsigned_of t).
-  assert (Hub : 32 <= bits ut) by exact Hbits.
+  assert (Hub : cxx_width (bits ut)) by exact Hw.
+  assert (Hub8 : 8 <= bits ut) by exact Hbits.
   assert (Hus : sgn ut = false) by reflexivity.
   rewrite (cast_id ut b' ltac:(lia)) by (apply in_ty_small; lia).
   rewrite (to_integer_spec ut false false s3 b' ltac:(lia) Hb). cbn [rbind].
@@ -216,7 +240,7 @@ Proof. destruct l as [|a [|b l]]; cbn [length skipn]; lia. Qed.
 Lemma has_0x_length s : has_0x s = true -> (3 <= length s)%nat.
 Proof. destruct s as [|c0 [|c1 [|c2 r]]]; cbn [has_0x length]; try discriminate. lia. Qed.
 
-Theorem strto_integer_correct t s b : 32 <= bits t -> b = 0 \/ 2 <= b <= 36 ->
+Theorem strto_integer_correct t s b : cxx_width (bits t) -> b = 0 \/ 2 <= b <= 36 ->
   strto_integer_m t s b = Ok (snd (strto_spec t b s), ti_of (strto_class t b s), fst (strto_spec t b s)).
 Proof.
   intros Hbits Hb. unfold strto_integer_m.
@@ -263,7 +287,7 @@ Proof.
 Qed.
 
 (* strtol strtoll strtoul strtoull: value and end pointer for every base 0, 2..36 and every text *)
-Theorem strto_correct t s b : 32 <= bits t -> b = 0 \/ 2 <= b <= 36 ->
+Theorem strto_correct t s b : cxx_width (bits t) -> b = 0 \/ 2 <= b <= 36 ->
   strto_m t s b = Ok (strto_spec t b s).
 Proof.
   intros Hbits Hb. unfold strto_m. rewrite (strto_integer_correct t s b Hbits Hb). cbn [rbind].
@@ -278,13 +302,13 @@ Proof.
 Qed.
 
 (* stoi stol stoll stoul stoull: value and *pos of [string.conversions] whenever std does not throw *)
-Theorem sto_correct t s b r : 32 <= bits t -> b = 0 \/ 2 <= b <= 36 ->
+Theorem sto_correct t s b r : cxx_width (bits t) -> b = 0 \/ 2 <= b <= 36 ->
   sto_spec t b s = Some r -> strto_m t s b = Ok r.
 Proof.
   intros Hbits Hb Hsome. rewrite (strto_correct t s b Hbits Hb). f_equal.
   unfold sto_spec in Hsome. unfold strto_spec.
   destruct (subject b s) as [[[neg b'] ds] n]. destruct ds as [|d ds]; [discriminate|].
-  pose proof (imin_imax t ltac:(lia)) as Hi. cbv zeta in *.
+  pose proof (imin_imax t ltac:(destruct Hbits; lia)) as Hi. cbv zeta in *.
   destruct (sgn t).
   - destruct (in_ty t (if neg then - eval b' (d :: ds) else eval b' (d :: ds))) eqn:Ein; [|discriminate].
     inversion Hsome; subst r. apply in_ty_iff in Ein.
@@ -295,7 +319,7 @@ Qed.
 
 (* where std::sto* throws, the etl functions return what strto* returns (no exceptions in etl):
    0 with pos = 0 without digits, the saturated value otherwise *)
-Theorem sto_no_throw t s b : 32 <= bits t -> b = 0 \/ 2 <= b <= 36 ->
+Theorem sto_no_throw t s b : cxx_width (bits t) -> b = 0 \/ 2 <= b <= 36 ->
   sto_spec t b s = None ->
   strto_m t s b = Ok (strto_spec t b s) /\ strto_class t b s <> SOk.
 Proof.
